@@ -162,6 +162,43 @@ def run(repo: Repo, rep: Report, tier: str) -> None:
                                     rep.check(ok, "C10-R3", key, ("absent, verified exception: " + why) if ok else
                                               f"{rec.name}.{rf} not in the key ({why})", kf.loc(br.node))
     rep.floor("C10-R3", "keyed node classes", len(keyed_classes), 2)
+    # operand order is part of the key: any canonicalisation (swap / sort of the operand keys) is allowed only for operators that commute in the IR
+    COMMUTATIVE = {"+", "*", "AND", "OR", "XOR"}  # note: in the IR "^" is Factorio's power operator, not xor
+    from ..core import class_const, module_const, parents_map as _pm, const_eval, NotConstant
+    from ..sites import guard_chain as _gc
+    for kf in keyfns:
+        pmk = _pm(kf.node)
+        for n in walk_local(kf.node):
+            swap = isinstance(n, ast.Assign) and isinstance(n.targets[0], ast.Tuple) and isinstance(n.value, ast.Tuple) and len(n.targets[0].elts) == 2 \
+                and [norm(e) for e in n.targets[0].elts] == [norm(e) for e in reversed(n.value.elts)]
+            srt = isinstance(n, ast.Call) and isinstance(n.func, ast.Name) and n.func.id in ("sorted", "min", "max") and any("key" in norm(a) for a in n.args)
+            if not (swap or srt):
+                continue
+            st = n
+            while not isinstance(st, ast.stmt):
+                st = pmk[st]
+            allowed = None
+            for t, pol in _gc(kf, st, pmk):
+                if not pol:
+                    continue
+                for sub in ast.walk(t):
+                    if isinstance(sub, ast.Compare) and isinstance(sub.ops[0], ast.In) and norm(sub.left).endswith(".op"):
+                        cont = sub.comparators[0]
+                        try:
+                            if isinstance(cont, ast.Attribute) and kf.cls is not None:
+                                allowed = set(class_const(repo, kf.cls, cont.attr))
+                            elif isinstance(cont, ast.Name):
+                                allowed = set(module_const(repo, kf.module, cont.id))
+                            else:
+                                allowed = set(const_eval(cont))
+                        except NotConstant:
+                            allowed = None
+            if allowed is None:
+                rep.bad("C10-R3", f"{kf.short}: operand keys are reordered only for commutative operators", f"`{norm(n)[:60]}` is not guarded by a literal operator set", kf.loc(n))
+            else:
+                extra = sorted(allowed - COMMUTATIVE)
+                rep.check(not extra, "C10-R3", f"{kf.short}: operand keys are reordered only for commutative operators",
+                          f"guard set {sorted(allowed)}" + ("" if not extra else f"; {extra} do not commute in the IR ('^' is power): `a ^ b` and `b ^ a` would be merged"), kf.loc(n))
 
     # metadata written on keyed node kinds by the builder must be a function of keyed fields
     builder = repo.cls("IRBuilder")
